@@ -126,7 +126,17 @@ fn run(case: &Val) -> Val {
             let rolls = c[5].n();
             let src_dir = tempfile::tempdir().expect("tempdir");
             let src = src_dir.path().join("active.log");
-            match FixedWindowRoller::builder().build(&at(&pattern), count) {
+            // the pattern is expanded when the roller ROLLS: while it is built the variables hold other values
+            let pairs: Vec<(String, String)> =
+                c[2].l().iter().map(|kv| (text_of(&kv.l()[0]), text_of(&kv.l()[1]))).collect();
+            for (k, _) in &pairs {
+                std::env::set_var(k, "decoy-at-build-time");
+            }
+            let built = FixedWindowRoller::builder().build(&at(&pattern), count);
+            for (k, v) in &pairs {
+                std::env::set_var(k, v);
+            }
+            match built {
                 Ok(r) => {
                     let mut ok = true;
                     for j in 1..=rolls {
@@ -183,6 +193,13 @@ fn main() {
         if !keep.iter().any(|x| k == std::ffi::OsStr::new(x)) {
             std::env::remove_var(&k);
         }
+    }
+    // an unrelated variable whose VALUE is not valid Unicode (and one whose NAME is not): the expansion looks
+    // up the variables a path names, it has no business with the rest of the environment
+    {
+        use std::os::unix::ffi::OsStrExt;
+        std::env::set_var("C19_OPAQUE", std::ffi::OsStr::from_bytes(b"\xff\xfe bytes"));
+        std::env::set_var(std::ffi::OsStr::from_bytes(b"C19_\xe9_NAME"), "v");
     }
     vh::main_loop(run);
 }
